@@ -303,7 +303,8 @@ def response_from_qlink_1_0(response: T_LinkLayer_1_0_Response) -> T_LinkLayerRe
             remote_node_id=response.remote_node_id,
             goodness=response.goodness,
             goodness_time=response.time_of_goodness,
-            bell_state=response.bell_state,
+            # qlink-interface 1.0 numbers the Bell states differently
+            bell_state=BellState[response.bell_state.name],
         )
     elif isinstance(response, qlink_1_0.ResMeasureDirectly):
         return LinkLayerOKTypeM(
@@ -316,7 +317,7 @@ def response_from_qlink_1_0(response: T_LinkLayer_1_0_Response) -> T_LinkLayerRe
             purpose_id=response.purpose_id,
             remote_node_id=response.remote_node_id,
             goodness=response.goodness,
-            bell_state=response.bell_state,
+            bell_state=BellState[response.bell_state.name],
         )
     elif isinstance(response, qlink_1_0.ResError):
         return LinkLayerErr(
